@@ -133,6 +133,52 @@ Theorem C08_shared_coolant_refuted :
   events_of 1 (trace d4_final) <> so_events (solo (nth 1 d4_progs idle_prog) (d4_ch 1) d4_m0 (pc (runs d4_final 1))).
 Proof. exact shared_coolant_refuted. Qed.
 
+(* 7. Termination.  A schedule in which every action is enabled when taken (what a real execution
+   is) has bounded length whenever each run alone stops within [bound i] steps; a schedule that
+   cannot be extended has returned or crashed (c >= 1); a crash is always some run's own solo
+   panic.  Together with 1-2: every maximal execution ends with all R runs complete, or with the
+   process terminated by a run that panics on its own. *)
+Theorem C08_schedules_bounded : forall P c ch m0 bound sch,
+  pairwise_disjointb (map fp P) = true ->
+  (forall i, i < length P -> so_status (solo (nth i P idle_prog) (ch i) m0 (bound i)) <> Going) ->
+  enabled_run P c ch sch (init_state m0) = true ->
+  length sch <= length P + 1 + sumr (fun i => bound i + 3) (length P).
+Proof. exact schedules_bounded. Qed.
+
+Theorem C08_maximal_schedule_returns_or_crashes : forall P c ch m0 sch, 1 <= c ->
+  let s := exec P c ch sch (init_state m0) in
+  (forall a, enabled P c s a = false) -> returned s = true \/ crashed s = true.
+Proof. exact maximal_returns_or_crashes. Qed.
+
+Theorem C08_crash_is_a_solo_panic : forall P c ch m0 sch,
+  pairwise_disjointb (map fp P) = true ->
+  let s := exec P c ch sch (init_state m0) in
+  crashed s = true ->
+  exists i, i < length P /\ so_status (solo (nth i P idle_prog) (ch i) m0 (pc (runs s i))) = Crashed.
+Proof. exact crash_is_a_solo_panic. Qed.
+
+(* For the annealing clones: every execution has at most R * (N + 6) + 1 actions, never crashes,
+   and when nothing can move any more the scenario has returned (hence, by the theorems above,
+   every run emitted its full fresh trace exactly once). *)
+Theorem C08_annealing_scenario_always_returns : forall T0 cf N R c ch m0 sch, 1 <= c ->
+  let P := fixed_progs T0 cf N R in
+  let s := exec P c ch sch (init_state m0) in
+  enabled_run P c ch sch (init_state m0) = true ->
+  length sch <= R * (N + 6) + 1 /\
+  crashed s = false /\
+  ((forall a, enabled P c s a = false) -> returned s = true).
+Proof. exact annealing_scenario_returns. Qed.
+
+(* Non-vacuity of 7: the greedy schedule for 3 clones / 2 slots consists of enabled actions only,
+   and ends returned. *)
+Example C08_example_enabled_schedule :
+  let P := fixed_progs (50 # 1) (9 # 10) 2 3 in
+  let ch := fun i k => Z.of_nat (i + k) in
+  let sch := greedy P 2 ch 100 (init_state (fun _ => 0%Q)) in
+  enabled_run P 2 ch sch (init_state (fun _ => 0%Q)) = true /\
+  returned (exec P 2 ch sch (init_state (fun _ => 0%Q))) = true /\ length sch = 22.
+Proof. vm_compute. repeat split; reflexivity. Qed.
+
 (* Non-vacuity: 3 clones, 2 slots, N = 2, a genuinely interleaved schedule; the hypotheses of
    theorems 1-5 hold and the scenario returns with every run finished. *)
 Example C08_example_interleaved :
@@ -155,3 +201,7 @@ Print Assumptions C08_every_run_is_a_prefix_of_its_solo_trace.
 Print Assumptions C08_every_run_completes_its_solo_trace.
 Print Assumptions C08_full_trace_starts_fresh_finishes_once.
 Print Assumptions C08_shared_coolant_refuted.
+Print Assumptions C08_schedules_bounded.
+Print Assumptions C08_maximal_schedule_returns_or_crashes.
+Print Assumptions C08_crash_is_a_solo_panic.
+Print Assumptions C08_annealing_scenario_always_returns.
